@@ -133,6 +133,25 @@ def check_beams(ctx, op, rng):
     # the only constant phase the module adds is that of its r1sq guard: k/2 (1-m)/z * 1e-10
     ctx.close("AS_mag_vs_gaussian_beam_constant_phase", np.angle(np.vdot(refm, gotm)), k / 2 * (1 - m) / zm * 1e-10, 1e-6,
               "angularSpectrum:analytic_beam:gouy_phase", wm)
+    # --- magnification within 1e-5 of one (but not one): still the exact scaled propagation
+    mn = 1.0 + float(rng.choice([-1, 1])) * float(10 ** rng.uniform(-8, -5))
+    zn = float(rng.choice([-1, 1]) * zc * rng.uniform(0.05, 0.5))
+    refn = beam(N, d1 * mn, w0, x0, y0, lam, zn, kx, ky)
+    gotn = op.angularSpectrum(U0, lam, d1, d1 * mn, zn)
+    wn = dict(base, m=mn, z=zn)
+    ctx.case("gauss_AS_near_unit_mag", key=("gASn", N, lam, d1, w0, x0, mn, zn), nontrivial=True, sample=wn)
+    ctx.close("AS_near_unit_mag_vs_gaussian_beam", upto_phase(gotn, refn), refn, 1e-9, "angularSpectrum:analytic_beam:magnification_near_one", wn)
+    got2n = op.twoStepFresnel(U0, lam, d1, d1 * mn, zn)
+    ctx.close("twoStep_near_unit_mag_vs_AS", upto_phase(got2n, gotn), gotn, 1e-7, "twoStepFresnel_vs_angularSpectrum:magnification_near_one", wn)
+    # --- two-step at exactly unit magnification: two half steps; the intermediate plane (spacing lambda|z|/(2 N d1))
+    #     resolves the beam for |z| ~ 2 N d1^2 / lambda
+    zu = float(rng.choice([-1, 1]) * 2.0 * zc * rng.uniform(0.9, 1.1))
+    refu = beam(N, d1, w0, x0, y0, lam, zu, kx, ky)
+    gotu = op.twoStepFresnel(U0, lam, d1, d1, zu)
+    wu = dict(base, m=1.0, z=zu)
+    ctx.case("gauss_two_step_unit_mag", key=("g2u", N, lam, d1, w0, x0, zu), nontrivial=True, sample=wu)
+    ctx.close("twoStep_unit_mag_vs_gaussian_beam", gotu, refu, 1e-6, "twoStepFresnel:analytic_beam:m=1" + (":z<0" if zu < 0 else ":z>0"), wu)
+    ctx.close("twoStep_unit_mag_vs_AS", gotu, op.angularSpectrum(U0, lam, d1, d1, zu), 1e-6, "twoStepFresnel_vs_angularSpectrum:m=1" + (":z<0" if zu < 0 else ":z>0"), wu)
     # --- two-step on the same output grid
     ctx.count("cross_pairs")
     got2 = pure_call(ctx, "twoStepFresnel", op.twoStepFresnel, U0, lam, d1, d1 * m, zm)
@@ -181,9 +200,10 @@ def check_beams(ctx, op, rng):
     e_flip = float(np.abs(upto_phase(flip, A) - A).max()) / sc
     e_tr = float(np.abs(upto_phase(T.T, A) - A).max()) / sc
     ctx.metric("twoStep_vs_AS_generic_field_relerr", e_same)
-    ctx.check(e_same <= min(e_flip, e_tr), "twoStepFresnel_vs_angularSpectrum:orientation",
+    ctx.check(e_same <= min(e_flip, e_tr), "twoStepFresnel_vs_angularSpectrum:orientation" + (":unit_magnification" if mm == 1.0 else ""),
               "two-step agrees with the angular spectrum better when flipped (%.3g) / transposed (%.3g) than as returned (%.3g)" % (e_flip, e_tr, e_same),
               {"wvl": lam, "d": dd, "m": mm, "z": zz})
+
 
 
 def check_airy(ctx, op, rng):
